@@ -160,3 +160,47 @@ class TSeqOfArrays(TSpec):
         n = max(int(_mget(model, self.count_name or f"{name}_N", 2)), self.min_n)
         shape = tuple(int(_mget(model, f"{name}_shape_{i}", 5)) for i in range(self.ndim))
         return f"_generic_array({(n,) + shape!r}, 'real')"
+
+
+class TRotBatch(TSpec):
+    """a batch of rotations whose length is the symbolic count named `count_name` (e.g. 'self_N')"""
+
+    def __init__(self, count_name, so3=True):
+        self.count_name, self.so3 = count_name, so3
+
+    def fresh(self, name, path):
+        n = Sym(z3.Int(self.count_name))
+        return RotV.symbolic(f"{name}_rot", path, so3=self.so3, n=n)
+
+    def candidates(self, name):
+        """counterexample search: every rotation of the batch is the same quarter turn (rational entries)"""
+        i = z3.Int("cand_i")
+        quarter = ((0, -1, 0), (1, 0, 0), (0, 0, 1))
+        extra = []
+        for a in range(3):
+            for b in range(3):
+                f = z3.Function(f"{name}_rot_m{a}{b}", z3.IntSort(), z3.RealSort())
+                extra.append(z3.ForAll([i], f(i) == quarter[a][b]))
+        return [(extra, {f"{name}_rotations": "quarter_turn"})]
+
+    def src(self, name, model):
+        n = max(int(_mget(model, self.count_name, 3)), 0)
+        if model.get(f"{name}_rotations") == "quarter_turn":
+            return f"_Rotation.from_matrix(np.array([[[0., -1, 0], [1, 0, 0], [0, 0, 1]]] * {n}))"
+        return f"_Rotation.random({n}, random_state=11)"
+
+
+class TArrN(TSpec):
+    """(N, k) real array with N the symbolic count named `count_name`"""
+
+    def __init__(self, count_name, k=3):
+        self.count_name, self.k = count_name, k
+
+    def fresh(self, name, path):
+        n = Sym(z3.Int(self.count_name))
+        f = z3.Function(f"{name}_elem", z3.IntSort(), z3.IntSort(), z3.RealSort())
+        return SArr((n, self.k), lambda idx: Sym(f(V.lift(idx[0]), V.lift(idx[1]))), "real")
+
+    def src(self, name, model):
+        n = max(int(_mget(model, self.count_name, 3)), 0)
+        return f"(_generic_array(({n}, {self.k}), 'real') * 0.37 - 1.0)"
